@@ -20,6 +20,12 @@ enum Before {
     TypeCommit(usize),
 }
 const WORDS: [&str; 3] = ["as", "aser", "k"];
+/// the same three slots typed through a fixed layout (Probhat keys): ক, হন, স - each has dictionary completions with the signs
+/// ু / ূ, which traditional joining rewrites, so a list built under other options is recognisable
+const FWORDS: [&str; 3] = ["k", "hn", "s"];
+fn word_for(ctx: &Ctx, k: usize) -> &'static str {
+    if ctx.opts.layout.contains("avro_phonetic") { WORDS[k] } else { FWORDS[k] }
+}
 
 #[derive(Clone, Copy, Debug, PartialEq)]
 enum Edit {
@@ -59,12 +65,12 @@ fn run_before(ctx: &mut Ctx, steps: &[Before], evs: &mut Vec<Ev>) -> Result<(), 
     for s in steps {
         match s {
             Before::TypeFinish(k) => {
-                type_word(ctx, WORDS[*k], evs, &mut sink)?;
+                type_word(ctx, word_for(ctx, *k), evs, &mut sink)?;
                 evs.push(Ev::Finish);
                 ctx.apply(&Ev::Finish)?;
             }
             Before::TypeCommit(k) => {
-                let shown = type_word(ctx, WORDS[*k], evs, &mut sink)?;
+                let shown = type_word(ctx, word_for(ctx, *k), evs, &mut sink)?;
                 let n = shown.as_ref().map(|r| r.len()).unwrap_or(0);
                 let i = if n > 1 { 1 } else { 0 };
                 evs.push(Ev::Commit(i));
@@ -79,7 +85,7 @@ fn run_before(ctx: &mut Ctx, steps: &[Before], evs: &mut Vec<Ev>) -> Result<(), 
 fn run_cont(ctx: &mut Ctx, cont: &[(usize, u8)], evs: &mut Vec<Ev>) -> Result<Vec<Rend>, Fail> {
     let mut rends = vec![];
     for (k, ending) in cont {
-        let shown = type_word(ctx, WORDS[*k], evs, &mut rends)?;
+        let shown = type_word(ctx, word_for(ctx, *k), evs, &mut rends)?;
         // a backspace in the middle so that the re-shown list is compared too
         evs.push(Ev::Bs);
         let mut after_bs = None;
